@@ -49,3 +49,47 @@ def lemma_octs_snoc(s: bytes, xs: seqbytes, i: int, n: int, cls: int, num: int, 
         assert tlv_len(cat(s, w)) == tlv_len(s)
         assert take(cat(s, w), tlv_len(s)) == take(s, tlv_len(s))
         lemma_octs_snoc(drop(s, tlv_len(s)), xs, i + 1, n, cls, num, w)
+
+
+# ---- decode direction: optional context-tagged components read by a `while reader:` loop that skips what it does not know.
+# The loop keeps the content of the *last* element with the wanted tag; every other element is skipped.  Written as a fold
+# from the front over the element stream: opt_none / opt_val give the final (is None, value) pair when the loop starts with
+# the accumulator (acc_none, acc).
+def ctx_is(s: bytes, num: int) -> bool:
+    return id_class(s) == 2 and id_number(s) == num
+
+
+def opt_none(s: bytes, num: int, acc_none: bool) -> bool:
+    return acc_none if len(s) == 0 else opt_none(rest_of(s), num, False if ctx_is(s, num) else acc_none)
+
+
+def opt_val(s: bytes, num: int, acc: bytes) -> bytes:
+    return acc if len(s) == 0 else opt_val(rest_of(s), num, content_of(s) if ctx_is(s, num) else acc)
+
+
+# ---- round trip (C01), message kind by message kind: feeding the decoder's postcondition with what the encoder's
+# postcondition describes gives back the fields.
+def lemma_rt_extended_request(e_name: bytes, name_b: bytes, e_value: bytes, value: bytes, has_value: bool) -> None:
+    lemma_tlv_roundtrip(e_name, 2, False, 0, name_b, ite(has_value, e_value, empty()))
+    if has_value:
+        lemma_tlv_roundtrip(e_value, 2, False, 1, value, empty())
+        lemma_tlv_prefix(e_value, empty())
+        assert cat(e_value, empty()) == e_value
+        assert len(e_value) >= 2
+        assert ctx_is(e_value, 1)
+        assert rest_of(e_value) == empty()
+        assert opt_none(rest_of(e_value), 1, False) == False
+        assert opt_val(rest_of(e_value), 1, value) == value
+    else:
+        assert opt_none(empty(), 1, True)
+
+
+# ---- decode direction, lists: the k-th suffix of an element stream
+def nth_rest(s: bytes, k: int) -> bytes:
+    return s if k <= 0 else nth_rest(rest_of(s), k - 1)
+
+
+def lemma_nth_rest_step(s: bytes, k: int) -> None:
+    """nth_rest(s, k + 1) == rest_of(nth_rest(s, k))"""
+    if k > 0:
+        lemma_nth_rest_step(rest_of(s), k - 1)
